@@ -72,6 +72,29 @@ def model_check(work, rep, tier):
     return sorted(scns)
 
 
+def tlaps(work, rep):
+    """Unbounded part: spec/SettingsProofs.tla (TLAPS) proves WriteOnce for ANY set of threads / cells / offered calls
+    and any bound on the number of calls; every obligation must be discharged."""
+    import subprocess
+    import shutil
+    exe = shutil.which("tlapm")
+    if not exe:
+        raise vf.ToolError("tlapm not found on PATH")
+    pdir = Path(work) / "tlaps"
+    pdir.mkdir(exist_ok=True)
+    for f in ("Settings.tla", "SettingsProofs.tla"):
+        shutil.copy(Path(work) / "spec" / f, pdir / f)
+    p = subprocess.run(["timeout", "-k", "10", "900", exe, "--threads", "4", "SettingsProofs.tla"], cwd=pdir,
+                       stdout=subprocess.PIPE, stderr=subprocess.STDOUT, text=True)
+    import re
+    m = re.search(r"All (\d+) obligations? proved", p.stdout)
+    if not m:
+        raise vf.ToolError("TLAPS did not discharge every obligation of SettingsProofs.tla:\n" + p.stdout[-1500:])
+    rep.cov["tlaps_obligations_proved"] = int(m.group(1))
+    rep.cov["tlaps_theorems"] = ["DomInv: Spec => []DomOK", "WriteOnceThm: Spec => WriteOnce (any Threads, Cells, MaxOps, OpsOf)"]
+    vf.log(f"TLAPS: all {m.group(1)} obligations of SettingsProofs.tla proved")
+
+
 def small_jobs(work, tier):
     """coverage instance, (thorough: liveness instance) and the three broken configurations; one worker each"""
     jobs = [("MC_Settings_cov.cfg", ["-coverage", "1"])] + [(c, []) for c in BROKEN]
@@ -270,6 +293,7 @@ def run(prop, tier, seed, replay=None):
         rep.add_states(1, 1)
     else:
         scns = model_check(work, rep, tier)
+        tlaps(work, rep)
         small = small_jobs(work, tier)          # runs while the harness executes the trials
         n_tlc, n_rand = (60, 140) if tier == "quick" else (500, 2000)
         picked = rng.sample(scns, min(n_tlc, len(scns)))
